@@ -215,7 +215,7 @@ def gen_pairs(max_len):
 
 def strategy():
     from hypothesis import strategies as st
-    descs = spans.catalogue(5, min_len=1)
+    descs = spans.catalogue(5, min_len=1) + spans.catalogue_long()
     faults = st.sampled_from([['set', 'nan'], ['set', 'inf'], 'warn', ['raise', 'ZeroDivisionError'], ['raise', 'KeyError'],
                               ['move', 100.0]])
 
